@@ -122,13 +122,36 @@ fn case_from_json(v: &Value) -> Option<Case> {
     })
 }
 
-/// Returns None if the case conforms, else (signature, detail).
+/// the ways a filter chain can be handed to the appender builder; all must give the declared chain
+const BUILDER_HISTORIES: [&str; 5] = [
+    "filter() per filter",
+    "one filters() call",
+    "filter(first) then filters(rest)",
+    "filters(first half) then filters(second half)",
+    "filters(all but last) then filter(last)",
+];
+
+/// Returns None if the case conforms under every builder history, else (signature, detail).
 pub fn check(c: &Case) -> Option<(String, String)> {
+    let longest = c.apps.iter().map(|a| a.chain.len()).max().unwrap_or(0);
+    for (h, name) in BUILDER_HISTORIES.iter().enumerate() {
+        if h > 0 && longest == 0 || h > 1 && longest < 2 {
+            continue;
+        }
+        if let Some((s, d)) = check_history(c, h) {
+            return Some((s, format!("[chain built by {}] {}", name, d)));
+        }
+    }
+    None
+}
+
+fn check_history(c: &Case, history: usize) -> Option<(String, String)> {
     let log: EventLog = Arc::new(Mutex::new(vec![]));
     let n = c.apps.len();
     let mut b = Config::builder();
     for (i, a) in c.apps.iter().enumerate() {
         let mut ab = Appender::builder();
+        let mut boxed: Vec<Box<dyn Filter>> = vec![];
         for (j, f) in a.chain.iter().enumerate() {
             let fb: Box<dyn Filter> = match f {
                 F::T(th) => Box::new(LoggedThreshold {
@@ -148,7 +171,39 @@ pub fn check(c: &Case) -> Option<(String, String)> {
                     log: log.clone(),
                 }),
             };
-            ab = ab.filter(fb);
+            boxed.push(fb);
+        }
+        let len = boxed.len();
+        let cut = match history {
+            2 => 1.min(len),
+            3 => len / 2,
+            4 => len.saturating_sub(1),
+            _ => 0,
+        };
+        let tail: Vec<Box<dyn Filter>> = boxed.split_off(cut);
+        match history {
+            0 => {
+                for fb in tail {
+                    ab = ab.filter(fb);
+                }
+            }
+            1 => ab = ab.filters(tail),
+            2 => {
+                for fb in boxed {
+                    ab = ab.filter(fb);
+                }
+                ab = ab.filters(tail);
+            }
+            3 => {
+                ab = ab.filters(boxed);
+                ab = ab.filters(tail);
+            }
+            _ => {
+                ab = ab.filters(boxed);
+                for fb in tail {
+                    ab = ab.filter(fb);
+                }
+            }
         }
         b = b.appender(ab.build(
             format!("p{}", i),
@@ -392,7 +447,7 @@ pub fn run(ctx: &Ctx) -> Report {
     let mut rep = Report::new("model_checking");
     rep.set(
         "rule",
-        "E-ENUM: every case of each listed group through Logger::new_with_err_handler + Log::log (two records per case); \
+        "E-ENUM: every case of each listed group, its chains handed to the appender builder in each of five ways (filter()/filters() mixes), through Logger::new_with_err_handler + Log::log (two records per case); \
          scripted filters log every consultation, appenders log deliveries and fail on demand. Non-trivial = case with at least \
          one Reject or Accept before the end of a chain, or a failing appender next to a healthy one (distinct by construction)",
     );
